@@ -124,6 +124,11 @@ func (ex *Exec) branch(cond *Term, site ssa.Instruction) bool {
 	if site != nil {
 		ex.forkCnt[site]++
 		if ex.forkCnt[site] > ex.h.Unwind {
+			if ex.h.Opts["unwindcut"] == "1" {
+				// stated bound: the path is cut here (stateless retry loop), not reported as a failure
+				ex.sess.res.UnwindCuts++
+				panic(pathEnd{"unwinding bound reached (cut)"})
+			}
 			ex.sess.UnwindFailure(ex.curPos())
 			panic(pathEnd{"unwinding bound reached"})
 		}
